@@ -113,11 +113,23 @@ class AsyncGraphMachine(GraphMachine, AsyncMachine):
 
     transition_cls = AsyncTransition
 
+    # GraphMachine and AsyncMachine both customise pickling; make sure both take part
+    def __getstate__(self):
+        state = AsyncMachine.__getstate__(self)
+        return {k: v for k, v in state.items() if k not in self._pickle_blacklist}
+
+    def __setstate__(self, state):
+        AsyncMachine.__setstate__(self, state)
+        GraphMachine.__setstate__(self, {})
+
 
 class HierarchicalAsyncGraphMachine(GraphMachine, HierarchicalMarkupMachine, HierarchicalAsyncMachine):
     """A hierarchical machine that supports asynchronous event/callback processing with Graphviz support."""
 
     transition_cls = NestedAsyncTransition
+
+    __getstate__ = AsyncGraphMachine.__getstate__
+    __setstate__ = AsyncGraphMachine.__setstate__
 
 
 # 4d tuple (graph, nested, locked, async)
